@@ -209,7 +209,7 @@ parseinit(struct scope *s, struct type *t)
 	p.last = &p.init;
 	if (t->incomplete && t->kind != TYPEARRAY)
 		error(&tok.loc, "initializer specified for incomplete type");
-	if (t->kind == TYPEARRAY && t->base->size == 0)
+	if (t->kind == TYPEARRAY && !t->incomplete && t->size == 0 && t->prop & PROPVM)
 		error(&tok.loc, "initializer specified for variable length array type");
 	for (;;) {
 		if (p.cur) {
@@ -278,8 +278,11 @@ parseinit(struct scope *s, struct type *t)
 				return p.init;
 			if (tok.kind == TCOMMA) {
 				next();
-				if (tok.kind != TRBRACE)
+				if (tok.kind != TRBRACE) {
+					if (p.cur == p.sub && p.cur->type->prop & PROPSCALAR)
+						error(&tok.loc, "too many initializers for scalar");
 					break;
+				}
 			} else if (tok.kind != TRBRACE) {
 				error(&tok.loc, "expected ',' or '}' after initializer");
 			}
